@@ -184,6 +184,15 @@ class USBSignalInEndpoint(Elaboratable):
                     m.d.usb += bytes_transmitted.eq(0),
                     m.next = "TRANSMIT_RESPONSE"
 
+        # If there has been a ClearFeature(ENDPOINT_HALT) request addressed to this (IN) endpoint,
+        # restart our data toggle sequence with DATA0 [USB 2.0: 9.4.5], as the host does.
+        clear_endpoint_halt = \
+            self.interface.clear_endpoint_halt_in.enable & \
+            self.interface.clear_endpoint_halt_in.direction & \
+            (self.interface.clear_endpoint_halt_in.number == self._endpoint_number)
+        with m.If(clear_endpoint_halt):
+            m.d.usb += self.interface.tx_pid_toggle[0].eq(0)
+
         return m
 
 
